@@ -1,9 +1,223 @@
 package main
 
+import (
+	"fmt"
+	"go/token"
+	"strings"
+
+	"golang.org/x/tools/go/ssa"
+)
+
 func init() {
-	register(&Prop{ID: "C14", Decided: "wip", NotDecided: "wip", Run: func(a *A) {
-		a.Rule("keyenc/partition", 1, func() { a.keyencRule("stream", "analyticFieldEngine", "partitionKey", keyencOpts{}) })
-		a.Rule("keyenc/cep", 1, func() { a.keyencRule("stream", "cepRunner", "partitionKey", keyencOpts{}) })
-		a.Rule("keyenc/table", 1, func() { a.keyencRule("stream", "", "encodeKey", keyencOpts{TypeTags: true}) })
-	}})
+	register(&Prop{
+		ID: "C14",
+		Decided: "(1) evaluation order relative to WHERE in the function both API paths share: with a WHERE free of analytic calls the predicate is evaluated first and a rejected row never reaches the analytic engine (state not advanced); with analytic calls in WHERE the engine runs before the predicate; (2) the partition key encoder is typed and length-prefixed (uniquely decodable, NULL distinct); (3) WHEN gating: on the false edge of the WHEN predicate no state is looked up or advanced; (4) LRU eviction is reachable only when the number of live partitions exceeds the cap, and it removes the oldest entry together with its last result; (5) every AnalyticState implementation: NewState returns a new object sharing no reference-typed state with the prototype, Apply writes only its receiver; (6) partitions/lru/lastResults/noPart/wrapperParsed are accessed only under fe.mu.",
+		NotDecided: "each function's definition (offsets, defaults, NULL skipping, start/reset arguments), wrapper-expression values, behaviour above the partition cap beyond 'the oldest goes'.",
+		Run: runC14,
+	})
+}
+
+func runC14(a *A) {
+	a.Rule("flow/where-order", 3, func() {
+		fn := a.Method("stream", "Stream", "applyWhereAndAnalytic")
+		evalAn := a.Method("stream", "Stream", "evalAnalytic")
+		for _, cs := range []struct {
+			whereUses, pass bool
+			want            string
+			what            string
+		}{
+			{false, false, "F", "WHERE without analytic calls, row rejected: the analytic engine is not run (state not advanced)"},
+			{false, true, "FA", "WHERE without analytic calls, row accepted: predicate first, then the analytic engine"},
+			{true, true, "AF", "WHERE with analytic calls: the analytic engine runs before the predicate"},
+			{true, false, "AF", "WHERE with analytic calls, row rejected: the engine has still run first"},
+		} {
+			env := &Env{a: a, Rank: map[string]int{}, Flags: map[string]bool{},
+				Assume: func(t *Term, v ssa.Value) Tri {
+					if c, ok := v.(*ssa.Call); ok && c.Call.IsInvoke() && c.Call.Method.Name() == "Evaluate" {
+						return tri(cs.pass)
+					}
+					if bo, ok := v.(*ssa.BinOp); ok {
+						if (bo.Op == token.NEQ || bo.Op == token.EQL) && isFieldOf(TermOf(bo.X, nil), "stream.Stream", "filter") {
+							return tri(bo.Op == token.NEQ)
+						}
+						if bo.Op == token.GTR {
+							if t := TermOf(bo.X, nil); t.Kind == "len" && isFieldOf(t.Base, "types.Config", "WhereAnalyticCalls") {
+								return tri(cs.whereUses)
+							}
+						}
+					}
+					return U
+				}}
+			w := NewWalker(env, nil)
+			w.RetIdx = -1
+			seq := map[*pstate]string{}
+			w.Target = func(in ssa.Instruction, w *Walker) bool {
+				if staticCallee(in) == evalAn {
+					seq[w.cur] += "A"
+					w.Tag(seq[w.cur])
+				}
+				if c := callCommon(in); c != nil && c.IsInvoke() && c.Method.Name() == "Evaluate" {
+					seq[w.cur] += "F"
+					w.Tag(seq[w.cur])
+				}
+				return false
+			}
+			outs := w.Run(fn.Blocks[0], nil)
+			construct := fmt.Sprintf("%s#order[whereUsesAnalytic=%v,pass=%v]", fname(fn), cs.whereUses, cs.pass)
+			bad := ""
+			for _, o := range outs {
+				if o.Tag != cs.want {
+					bad = fmt.Sprintf("observed call sequence %q (A = analytic engine, F = WHERE predicate), expected %q", o.Tag, cs.want)
+				}
+			}
+			if len(outs) != 1 {
+				bad = fmt.Sprintf("%d paths under fixed conditions (a condition is not understood)", len(outs))
+			}
+			a.Check(bad == "", construct, fn.Pos(), cs.what, cs.what+" — "+bad)
+		}
+	})
+	a.Rule("keyenc/partition", 1, func() { a.keyencRule("stream", "analyticFieldEngine", "partitionKey", keyencOpts{}) })
+	a.Rule("flow/when-gating", 1, func() {
+		fn := a.Method("stream", "analyticFieldEngine", "evaluate")
+		n := 0
+		allInstrs(fn, func(in ssa.Instruction) {
+			c, ok := in.(*ssa.Call)
+			if !ok {
+				return
+			}
+			isState := false
+			if cal := c.Call.StaticCallee(); cal != nil && (cal.Name() == "getStateLocked" || cal.Name() == "applyCall") {
+				isState = true
+			}
+			if c.Call.IsInvoke() && strings.HasPrefix(c.Call.Method.Name(), "Apply") {
+				isState = true
+			}
+			if !isState {
+				return
+			}
+			n++
+			hit := reachUnder(fn, in, func(v ssa.Value) Tri {
+				if cc, ok := v.(*ssa.Call); ok && cc.Call.IsInvoke() && cc.Call.Method.Name() == "Evaluate" {
+					return F
+				}
+				if bo, ok := v.(*ssa.BinOp); ok && (bo.Op == token.NEQ || bo.Op == token.EQL) && isFieldOf(TermOf(bo.X, nil), "stream.analyticFieldEngine", "whenCond") {
+					return tri(bo.Op == token.NEQ)
+				}
+				if isFieldOf(TermOf(v, nil), "types.AnalyticField", "MultiColumn") {
+					return F
+				}
+				return U
+			})
+			a.Check(!hit, fname(fn)+"#when-gates-state", in.Pos(), "unreachable when the WHEN predicate is false", "state is looked up / advanced although the WHEN predicate is false for this row")
+		})
+		if n == 0 {
+			a.Und(fname(fn)+"#when-gates-state", fn.Pos(), "no state access found in evaluate")
+		}
+	})
+	a.Rule("ordtab/lru-eviction", 2, func() {
+		fn := a.Method("stream", "analyticFieldEngine", "getStateLocked")
+		spec := OrdSpec{Roles: []string{"len", "cap"},
+			Role: func(t *Term) string {
+				if t.Kind == "call" && t.Name == "(*container/list.List).Len" {
+					return "len"
+				}
+				if isFieldOf(t, "stream.analyticFieldEngine", "maxPartitions") {
+					return "cap"
+				}
+				return ""
+			}}
+		var delKeys []string
+		var firstDel ssa.Instruction
+		allInstrs(fn, func(in ssa.Instruction) {
+			if c, ok := in.(*ssa.Call); ok {
+				if cc, ok := isBuiltinCall(c, "delete"); ok {
+					delKeys = append(delKeys, TermOf(cc.Args[0], nil).String()+"["+TermOf(cc.Args[1], nil).String()+"]")
+					if firstDel == nil {
+						firstDel = in
+					}
+				}
+			}
+		})
+		if firstDel == nil {
+			a.Und(fname(fn)+"#evict-only-above-cap", fn.Pos(), "no eviction (delete) found")
+			return
+		}
+		a.OnlyIf(fname(fn)+"#evict-only-above-cap", firstDel.Pos(), "a partition's state is evicted only when the number of live partitions exceeds the cap", spec,
+			fn.Blocks[0], nil, nil,
+			func(in ssa.Instruction, _ *Walker) bool {
+				c, ok := in.(*ssa.Call)
+				if !ok {
+					return false
+				}
+				if _, ok := isBuiltinCall(c, "delete"); ok {
+					return true
+				}
+				return calleeFull(&c.Call) == "(*container/list.List).Remove"
+			},
+			func(r map[string]int, _ map[string]bool) bool { return r["len"] > r["cap"] })
+		// the evicted entry: lru.Back(); partitions and lastResults deleted under the same key
+		okKeys := len(delKeys) == 2 && strings.Contains(delKeys[0], "partitions") && strings.Contains(delKeys[1], "lastResults") &&
+			delKeys[0][strings.Index(delKeys[0], "["):] == delKeys[1][strings.Index(delKeys[1], "["):]
+		back := false
+		allInstrs(fn, func(in ssa.Instruction) {
+			if c, ok := in.(*ssa.Call); ok && calleeFull(&c.Call) == "(*container/list.List).Remove" {
+				if t := TermOf(c.Call.Args[1], nil); t.Kind == "call" && t.Name == "(*container/list.List).Back" {
+					back = true
+				}
+			}
+		})
+		a.Check(okKeys && back, fname(fn)+"#evicts-oldest-with-result", firstDel.Pos(), "the least recently used entry (lru.Back()) is removed together with its lastResults entry, same key",
+			fmt.Sprintf("eviction does not remove lru.Back() with both its partitions and lastResults entries under one key (deletes: %v, removesBack=%v)", delKeys, back))
+	})
+	a.Rule("aggstate/analytic-states", 6, func() {
+		iface := a.Iface("functions", "AnalyticState")
+		sa := a.Iface("functions", "StatefulAnalytic")
+		impls := a.Implementers(iface)
+		accOf := map[string]map[string]bool{}
+		for _, T := range impls {
+			ap := a.methodOf(T, "Apply")
+			if ap == nil {
+				continue
+			}
+			acc := a.ruleConfinedWrites(T, ap)
+			m := map[string]bool{}
+			for f := range acc {
+				m[f.Name()] = true
+			}
+			accOf[qual(T)] = m
+		}
+		// NewState of every StatefulAnalytic returns a fresh state
+		for _, T := range a.Implementers(sa) {
+			ns := a.methodOf(T, "NewState")
+			if ns == nil || ns.Blocks == nil {
+				continue
+			}
+			construct := qual(T) + ".NewState#fresh"
+			bad := ""
+			for _, b := range ns.Blocks {
+				ret, ok := b.Instrs[len(b.Instrs)-1].(*ssa.Return)
+				if !ok {
+					continue
+				}
+				for _, leaf := range phiLeaves(ret.Results[0]) {
+					v := leaf
+					if mi, ok := v.(*ssa.MakeInterface); ok {
+						v = mi.X
+					}
+					switch x := v.(type) {
+					case *ssa.Alloc:
+					case *ssa.Call:
+						if cal := x.Call.StaticCallee(); cal == nil || !a.fnInModule(cal) {
+							bad = "returns the result of an unknown call"
+						}
+					default:
+						bad = fmt.Sprintf("returns %s, not a new state object: all partitions would share one state", TermOf(v, nil))
+					}
+				}
+			}
+			a.Check(bad == "", construct, ns.Pos(), "NewState allocates a new state per partition", bad)
+		}
+		a.Info("analytic_state_implementations", len(impls))
+	})
+	a.Rule("locks/guarded-by", 5, func() { a.lockRules("stream", "analyticFieldEngine") })
 }
